@@ -55,7 +55,7 @@ def shards(tier):
     q = tier == 'quick'
     out = [{'kind': 'split', 'n': 3000 if q else 120000} for _ in range(8)]
     out += [{'kind': 'which', 'n': 400 if q else 12000} for _ in range(4)]
-    out += [{'kind': 'probe', 'n': 30 if q else 1000} for _ in range(4)]
+    out += [{'kind': 'probe', 'n': 80 if q else 1000} for _ in range(8)]
     return out
 
 
